@@ -212,6 +212,11 @@ impl Peer {
         self.sock.flush().await
     }
 
+    pub async fn sock_write(&mut self, data: &[u8]) -> std::io::Result<()> {
+        self.sock.write_all(data).await?;
+        self.sock.flush().await
+    }
+
     /// Write raw bytes in the given slices, yielding between them.
     pub async fn write_sliced(&mut self, data: &[u8], cuts: &[usize]) -> std::io::Result<()> {
         let mut prev = 0;
